@@ -335,3 +335,4 @@ Definition valid_vector (c : case) (e : expected) : list bool :=
     | None => false
     end ].
 Definition check_valid (ce : case * expected) : bool := forallb (fun b => b) (valid_vector (fst ce) (snd ce)).
+Definition check_both (ce : case * expected) : bool := check_case ce && check_valid ce.
